@@ -101,8 +101,8 @@ func oracleC09(x *Exec, so *StepObs) {
 		if c, dup := creator[e.rev]; dup {
 			cause := "none"
 			for _, d := range evs {
-				// (with the driver's calls running truly concurrently the recorded order of two overlapping calls is arbitrary)
-				if d.kind == "delete" && d.rev == e.rev && (d.seq < e.seq || x.Plan.CoRelease == "inner") {
+				// (in the race-detector population calls of a co-released set are answered together: their recorded order is arbitrary)
+				if d.kind == "delete" && d.rev == e.rev && (d.seq < e.seq || x.Plan.CoRelease != "") {
 					if d.proc == e.proc {
 						cause = "second-creator-pruned-the-first-record"
 					} else if d.proc != c && cause == "none" && prunes[d.proc] {
